@@ -13,7 +13,8 @@ NumP == {NumV(0), NumV(4), NumV(8), NumV(-4), NumV(2), NumV(12), K(TNum, PInf), 
 S(x) == StrV(x)
 StrP == {S(<<>>), S(<<"a">>), S(<<"a", "b">>), S(<<"b", " ", "a">>), S(<<"%", "d">>), S(<<"%", "s", "-", "%", "s">>), S(<<"1">>), S(<<"1", "0">>),
          S(<<"A", "b">>), S(<<" ", "a", " ">>), S(<<"a", ",", "b">>), S(<<"(", "a", ")">>), S(<<"[">>), S(<<"{", "}">>), S(<<"a", "LF">>), S(<<"e", "acute">>),
-         S(<<"t", "r", "u", "e">>), S(<<"%", "v">>), S(<<"n", "u", "l", "l">>), S(<<"1", "h">>)}
+         S(<<"t", "r", "u", "e">>), S(<<"%", "v">>), S(<<"n", "u", "l", "l">>), S(<<"1", "h">>),
+         S(<<"a", ",", " ", "b", "LF", "1", ",", " ", "0", "LF">>), S(<<"a", ",", "b", "LF", "1", ",", "0">>)}
 DynTypes == {TNum, TStr, TBool, TList(TStr), TList(TNum), TSet(TStr), TSet(TNum), TMap(TNum), TMap(TStr), TTup(<<TNum, TStr>>), TTup(<<>>),
              TObj([a |-> TNum, b |-> TStr]), TObj(<<>>), TList(TList(TNum)), TTup(<<TList(TStr), TNum>>), TMap(TList(TStr)), TList(TObj([a |-> TNum])), TSet(TTup(<<TNum, TStr>>))}
 RECURSIVE Pool(_)
@@ -41,8 +42,10 @@ BaseLists == IF ~HasPool THEN {} ELSE UNION {ListsOfLen(NP + x) : x \in Extras}
 
 \* C11 injections: null / unknown / DynamicVal / dynamically typed null / marks at one position
 TyOf(v) == v.ty
+\* unknown / null values of the parameter's DECLARED constraint where it still contains the placeholder (set(dynamic), list(dynamic), ...)
+DeclInj(i) == IF HasDyn(PTy(i)) /\ PTy(i).k # "dynamic" THEN {Unk(PTy(i), NoRf), Null(PTy(i)), Unk(PTy(i), [null |-> "F"])} ELSE {}
 Inject(a, i) == LET v == a[i] IN
-   {[a EXCEPT ![i] = w] : w \in {Null(v.ty), Unk(v.ty, NoRf), Unk(v.ty, [null |-> "F"]), DynVal, Null(TDyn), WithMk(v, <<"m1">>), WithMk(Unk(v.ty, NoRf), <<"m2">>)}
+   {[a EXCEPT ![i] = w] : w \in {Null(v.ty), Unk(v.ty, NoRf), Unk(v.ty, [null |-> "F"]), DynVal, Null(TDyn), WithMk(v, <<"m1">>), WithMk(Unk(v.ty, NoRf), <<"m2">>)} \cup DeclInj(i)
                                  \cup TakeN(MarkNested(v, <<"m2">>), 2) \cup TakeN(Weak1(v, TRUE), 2)}
 Injected(a) == UNION {Inject(a, i) : i \in 1..Len(a)}
 InjBase == IF Cardinality(BaseLists) <= 25 THEN BaseLists ELSE RandomSubset(25, BaseLists)
@@ -60,7 +63,15 @@ Line(a) ==
     [] Mode = "weak" -> [k |-> "weak", api |-> Api, xs |-> <<[none |-> TRUE]>>, a |-> a, vs |-> SetToSeq(WeakOf(a))]
     [] Mode = "mark" -> [k |-> "mark", api |-> Api, xs |-> <<[none |-> TRUE]>>, a |-> a, vs |-> SetToSeq(MarkOf(a) \cup UNION {MarkOf(w) : w \in TakeN(WeakOf(a), 2)})]
 NestedUnk(a) == UNION {{[a EXCEPT ![i] = w] : w \in TakeN(Weak1(a[i], TRUE) \ UnkMenuLite(a[i]), 3)} : i \in 1..Len(a)}
-Src == IF Mode = "ref" THEN BaseLists ELSE IF Mode = "call" THEN BaseLists \cup UNION {Injected(a) : a \in InjBase} \cup UNION {NestedUnk(a) : a \in BaseLists} ELSE WBase
+\* argument lists worth trying whatever the random thinning picks
+Inf == K(TNum, PInf)
+MInf == K(TNum, NInf)
+Extra == CASE F.name = "range" -> {<<Inf, MInf, MInf>>, <<MInf, Inf, Inf>>, <<Inf, Inf>>, <<NumV(0), Inf>>, <<MInf>>, <<NumV(0), NumV(4), MInf>>, <<Inf, NumV(0), NumV(-4)>>}
+           [] F.name = "format" -> {<<S(<<"%", "[", "1", "8", "4", "4", "6", "7", "4", "4", "0", "7", "3", "7", "0", "9", "5", "5", "1", "6", "1", "5", "]", "v">>), NumV(4)>>,
+                                    <<S(<<"%", "[", "4", "2", "9", "4", "9", "6", "7", "2", "9", "6", "]", "v">>), NumV(4)>>, <<S(<<"%", "9", "9", "9", "9", "9", "9", "9", "9", "9", "9", "9", "9", "9", "9", "9", "9", "9", "9", "9", "9", "d">>), NumV(4)>>}
+           [] F.name = "formatlist" -> {<<S(<<"%", "[", "1", "8", "4", "4", "6", "7", "4", "4", "0", "7", "3", "7", "0", "9", "5", "5", "1", "6", "1", "5", "]", "v">>), NumV(4)>>}
+           [] OTHER -> {}
+Src == IF Mode = "ref" THEN BaseLists ELSE IF Mode = "call" THEN Extra \cup BaseLists \cup UNION {Injected(a) : a \in InjBase} \cup UNION {NestedUnk(a) : a \in BaseLists} ELSE WBase
 \* RandomSubset makes Src differ between evaluations: evaluate it exactly once
 ASSUME LET sq == SetToSeq(Src) IN
        LET out == [i \in 1..Len(sq) |-> Line(sq[i])] IN
